@@ -354,6 +354,35 @@ def check_truth_propagation(idx: Index, rep: Report) -> None:
             r.ok(inst, f"{loc} {blk}: {want_blk[blk]} under a single-predecessor test of the same block")
 
 
+def check_fastmath_guards(idx: Index, rep: Report) -> None:
+    """select(cmpf pred a b, a, b) -> maximumf / minimumf differs from the select on NaN operands (maximumf returns
+    NaN, the select returns b) and on (+0.0, -0.0) (maximumf orders the zeros, cmpf does not): the rewrite needs BOTH
+    nnan and nsz."""
+    r = rep.rule("C14.R8", "the select/cmpf -> maximumf/minimumf rewrite is applied only under fastmath nnan AND nsz", floor=1)
+    from ..astutil import norm_facts, text_facts
+
+    f = idx.func("xdsl/transforms/canonicalization_patterns/arith.py", "SelectFoldCmpfPattern.match_and_rewrite")
+    reps = [c for c in calls_in(f.node) if call_attr(c) in ("replace", "replace_op", "replace_matched_op") and unparse(c.func.value) == "rewriter"]  # type: ignore[attr-defined]
+    if not reps:
+        raise AnalysisError(f"{f.fq}: replacement call not found")
+    for c in reps:
+        nf = norm_facts(text_facts(f.node, c))
+        need = {"NO_NANS": False, "NO_SIGNED_ZEROS": False}
+        for t_, pol in nf:
+            m_ = re.fullmatch(r"arith\.FastMathFlag\.(NO_NANS|NO_SIGNED_ZEROS) in \w+\.fastmath\.data", t_)
+            if m_ and pol:
+                need[m_.group(1)] = True
+            m2 = re.fullmatch(r"\w+\.fastmath\.data\.issuperset\(.*NO_NANS.*NO_SIGNED_ZEROS.*\)|\w+\.fastmath\.data\.issuperset\(.*NO_SIGNED_ZEROS.*NO_NANS.*\)|\{.*\} <= \w+\.fastmath\.data", t_)
+            if m2 and pol and "NO_NANS" in t_ and "NO_SIGNED_ZEROS" in t_:
+                need = {k: True for k in need}
+        miss = [k for k, v in need.items() if not v]
+        inst = f"{f.fq}:{c.lineno - f.node.lineno}"
+        if miss:
+            r.fail(inst, Finding("C14.R8", f.fq, "fastmath-guard:" + ",".join(miss), f"`{unparse(c)[:70]}` is reachable without the fastmath flag(s) {miss} being known present (facts: {sorted(t_ for t_, p_ in nf if 'fastmath' in t_ or 'FastMath' in t_)[:3]}): without nnan a NaN operand gives NaN instead of the selected operand, without nsz (+0.0, -0.0) gives the other zero", f"{f.module.relpath}:{c.lineno}"))
+        else:
+            r.ok(inst, f"{f.module.relpath}:{c.lineno} rewrite under nnan and nsz")
+
+
 def check(idx: Index, rep: Report, tier: str) -> str:
     rep.run(check_truncation, idx, rep)
     rep.run(check_exceptions, idx, rep)
@@ -362,6 +391,7 @@ def check(idx: Index, rep: Report, tier: str) -> str:
     rep.run(check_cse, idx, rep)
     rep.run(check_int_division, idx, rep)
     rep.run(check_truth_propagation, idx, rep)
+    rep.run(check_fastmath_guards, idx, rep)
     return (
         "Table-agreement and guard rules over arith's folders, the arith canonicalization patterns, constant-fold-interp, "
         "the constant-folding test pass and CSE: folded integers are truncated, fold patterns catch what the interpreter "
